@@ -7,7 +7,7 @@
      success: status word 1 /\ debit = value + fee /\ exactly one ETX with that value at index idx
      failure: status word 0 /\ no debit /\ no ETX            (exactly one status word either way). *)
 From Coq Require Import List NArith Bool.
-From GQ Require Import Generated.C05Params Model.C05 Proofs.C05.
+From GQ Require Import Generated.C05Params Lib.C05_Slice Model.C05 Proofs.C05 Proofs.C05_Block.
 Import ListNotations.
 Local Open Scope N_scope.
 
@@ -432,4 +432,95 @@ Example constructor_code_too_large_nonvacuous :
   let ctor := ex_send ++ [IPush (MaxCodeSize + 1); IPush 0; IReturn] in
   let r := call 5 (wit_ctx wit_post 2 []) (FCreate ctor ex_new 0) false 0 wit_self 0 20000000 1000000 wit_world in
   c_err r = 2 /\ c_world r = wit_world /\ c_gas r = 0.
+Proof. vm_compute. repeat split; reflexivity. Qed.
+
+(* ---------------- the per-transaction outbound record and the block's outbound list ----------------
+   (core/state_transition.go:TransitionDb -- the dump of EVM.ETXCache into ExecutionResult.Etxs;
+    core/state_processor.go:applyTransaction -- receipt.OutboundEtxs; StateProcessor.Process -- ONE EVM per
+    block, emittedEtxs = the receipts' outbound sets appended in order)
+   "The outbound set committed by a block is exactly the set recorded by its successful, non-reverted
+    operations, in execution order."  A transaction is (succeeded, what its execution appended to the cache);
+   [tx_sent t] = what it sent = that list if it succeeded, nothing otherwise. *)
+
+(* every receipt records exactly what its own transaction sent -- nothing of an earlier transaction (the
+   cache is empty again after every hand-over), nothing for a failed one *)
+Theorem receipts_record_their_own_transaction : forall txs, fst (process [] txs) = map tx_sent txs.
+Proof. exact process_receipts. Qed.
+Print Assumptions receipts_record_their_own_transaction.
+
+(* the block's outbound list is the concatenation, in execution order, of the receipts' outbound sets = of what
+   the successful transactions sent *)
+Theorem block_outbound_is_concatenation : forall txs,
+  snd (process [] txs) = List.concat (fst (process [] txs)) /\
+  snd (process [] txs) = List.concat (map tx_sent txs).
+Proof. exact process_block_concat. Qed.
+Print Assumptions block_outbound_is_concatenation.
+
+(* validator (one EVM per block, StateProcessor.Process) and worker (one EVM per transaction,
+   core.ApplyTransaction) compute the same receipts and the same outbound list *)
+Theorem shared_evm_equals_fresh_evm : forall txs, process [] txs = process_fresh txs.
+Proof. exact process_shared_fresh. Qed.
+Print Assumptions shared_evm_equals_fresh_evm.
+
+(* RETENTION, at the level of Go slices (Lib/C05_Slice.v: backing arrays, append in place while there is capacity,
+   re-slicing by revertToSnapshot; any growth policy): with TransitionDb's make + copy, what every receipt's
+   OutboundEtxs reads AFTER THE LAST transaction of the block -- all of them executed on the one shared cache,
+   appending to and re-slicing it at will -- is what its transaction sent, and the list accumulated along the way
+   is the value-level one *)
+Theorem recorded_outbound_is_retained : forall grow txs hf rs bl,
+  hprocess grow true [[]] (mkSl 0 0) txs = (hf, rs, bl) ->
+  map (read_receipt hf) rs = fst (process [] (map abs_tx txs)) /\
+  bl = snd (process [] (map abs_tx txs)).
+Proof. exact hprocess_copy_retains. Qed.
+Print Assumptions recorded_outbound_is_retained.
+
+(* ... and it rests on that copy: handing out the cache slice itself and re-slicing it to [:0] (the blind change
+   seeded/C05_3) makes the receipt of the first of two sending transactions read the second one's ETX,
+   although the block's list -- copied out in time -- is still right *)
+Theorem handover_without_copy_refuted : exists grow txs,
+  match hprocess grow false [[]] (mkSl 0 0) txs with
+  | (hf, rs, bl) => map (read_receipt hf) rs <> fst (process [] (map abs_tx txs))
+  end.
+Proof. exact hprocess_alias_refuted. Qed.
+Print Assumptions handover_without_copy_refuted.
+
+(* end to end over the EVM model: a block of top-level message calls, each run on the world its predecessor
+   left with the cache reset: receipt i = the ETXs recorded by the operations of non-reverted frames of
+   transaction i if it succeeded (nothing otherwise), the block's list is their concatenation, and the indices
+   restart at 0 in every receipt (positions are indices) *)
+Theorem block_of_calls_commits_successful_ops : forall fuel c txs w, w_etxs w = [] ->
+  fst (process_calls fuel c txs w) = block_sent fuel c txs w /\
+  snd (process_calls fuel c txs w) = List.concat (block_sent fuel c txs w) /\
+  Forall indices_ok (fst (process_calls fuel c txs w)).
+Proof. exact process_calls_spec. Qed.
+Print Assumptions block_of_calls_commits_successful_ops.
+
+(* side condition on generated data: the statements of TransitionDb / applyTransaction / EVM.Reset that touch the
+   cache and the outbound record are the ones the hand-over model was written against (make + copy, new cache) *)
+Theorem handover_source_as_modelled : handover_as_modelled = true.
+Proof. exact handover_ok. Qed.
+Print Assumptions handover_source_as_modelled.
+
+Example block_outbound_nonvacuous :
+  let e1 := mkEtx 1 10 1111 0 0 21000 in let e2 := mkEtx 2 20 2222 0 0 21000 in let e3 := mkEtx 3 20 5 1 0 21000 in
+  process [] [(true, [e1]); (false, []); (true, [e2; e3])] = ([[e1]; []; [e2; e3]], [e1; e2; e3]).
+Proof. vm_compute. reflexivity. Qed.
+
+(* three transactions on one cache at slice level: 3 ETXs (one of them in a frame that is reverted), then 1, then 2:
+   with the copy every receipt still reads its own ETXs at the end; without it the first two read the third's *)
+Example retention_nonvacuous :
+  let e := fun i => mkEtx i 10 (100 + i) 0 0 21000 in
+  let txs := [(true, [CPush (e 1); CPush (e 9); CTrunc 1; CPush (e 2); CPush (e 3)]); (true, [CPush (e 4)]); (true, [CPush (e 5); CPush (e 6)])] in
+  (match hprocess (fun n => n) true [[]] (mkSl 0 0) txs with
+   | (hf, rs, bl) => map (read_receipt hf) rs = [[e 1; e 2; e 3]; [e 4]; [e 5; e 6]] /\ bl = [e 1; e 2; e 3; e 4; e 5; e 6] end) /\
+  (match hprocess (fun n => n) false [[]] (mkSl 0 0) txs with
+   | (hf, rs, bl) => map (read_receipt hf) rs = [[e 5; e 6; e 3]; [e 5]; [e 5; e 6]] /\ bl = [e 1; e 2; e 3; e 4; e 5; e 6] end).
+Proof. vm_compute. repeat split; reflexivity. Qed.
+
+(* a block of two model transactions, each calling the sending contract of the examples above: indices restart *)
+Example block_of_calls_nonvacuous :
+  let c := wit_ctx wit_post 2 [(wit_self, ex_send ++ [IStop])] in
+  let t := mkMtx wit_origin wit_self 1000000 0 in
+  let rs := fst (process_calls 5 c [t; t] (mkW [(wit_origin, e21); (wit_self, e21)] [])) in
+  map (map e_index) rs = [[0]; [0]] /\ map (map e_sender) rs = [[wit_self]; [wit_self]].
 Proof. vm_compute. repeat split; reflexivity. Qed.
